@@ -75,9 +75,27 @@ def udp_alt(rng, k, cur):
         return "0"
     return str(int(cur) ^ 1)
 
+def fmt3_sweep(rng):
+    """every source-id length 0..4 x source ids over the full width (0, 1, max, high nibble only, low nibble
+    only, alternating patterns such as 0x5a5) x sequence numbers over the complementary width"""
+    out = []
+    for n in range(0, 5):
+        w, sb = 4 * n, 32 - 4 * n
+        m = (1 << w) - 1
+        sids = [0] if n == 0 else sorted(set([0, 1, m, m - 1, 0xF << (w - 4), 0xF, 0x5A5A & m, 0xA5A5 & m, 1 << (w - 1)]))
+        sm = (1 << sb) - 1
+        seqs = sorted(set([0, 1, sm, sm - 1, 1 << (sb - 1), 0xF << (sb - 4), 0x5A5A5A5A & sm, 0xA5A5A5A5 & sm, rng.getrandbits(sb)]))
+        for sid in sids:
+            for seq in seqs:
+                out.append({"version": 3, "sourceid_len": n, "sourceid": sid, "sequence": seq,
+                            "offset_pkt_start": rng.boundary(16), "payload": rng.bytes_(rng.randrange(0, 6))})
+    return out
+
 def udp_lines(ctx):
     rng = ctx.rng
     L = []
+    for f in fmt3_sweep(rng):
+        L.append(gen.H("Chapter10UDP", _sets(f) + ["pack", "obs"]))
     # every payload length 0..40 for each format, plus big ones
     big = [1400, 1401, 1402, 1403] + [rng.randrange(41, ctx.scale(2000, 9000)) for _ in range(ctx.scale(3, 40))]
     for fmt in (1, 2, 3):
@@ -219,6 +237,9 @@ def udp_oracle_cases(ctx):
         f["sequence"] = (f["sequence"] & 0xF0FFFF) | (nib << 16)
         p = f.pop("payload")
         yield {"fields": f, "payload": p.hex()}
+    for f in fmt3_sweep(rng):                        # every source-id length, ids / sequences over the full widths
+        p = f.pop("payload")
+        yield {"fields": f, "payload": p.hex()}
     for _ in range(ctx.scale(20, 400)):              # segmented format 1, encode side
         f = {"version": 1, "type": 1, "sequence": rng.boundary(24), "channelID": rng.boundary(16),
              "channelsequence": rng.boundary(8), "segmentoffset": rng.boundary(32)}
@@ -298,6 +319,73 @@ def ch11_lines(ctx, cls="Chapter11"):
             L.append(gen.H(cls, ["set data_checksum_size %d" % d, "set payload " + hexb(rng.bytes_(n)),
                                  "set filler x0102", "set packetlen 9", "set datalen 99", "pack", "obs", "pack", "obs"]))
     return L
+
+REPACK_LENGTHS = [1, 4, 0, 3, 8, 2, 5, 0, 7, 6, 12, 9]
+
+def ch11_repack_cases(ctx, cls="Chapter11"):
+    """ONE object packed again and again with payload lengths in every residue mod 4 (unaligned, aligned,
+    empty, …), with and without the secondary header, other fields changing in between"""
+    rng = ctx.rng
+    out = []
+    for i in range(ctx.scale(8, 300)):
+        lens = list(REPACK_LENGTHS) if i < 2 else [rng.randrange(0, 14) for _ in range(rng.randrange(3, 10))]
+        steps = []
+        for n in lens:
+            f = ch11_fields(rng, secondary=(i % 2 == 1) if i < 2 else None, n=n)
+            f.pop("syncpattern", None)
+            if rng.random() < 0.5 and steps:                # sometimes only the payload changes
+                f = {"payload": f["payload"]}
+            steps.append(f)
+        out.append({"cls": cls, "steps": [{k: (v.hex() if isinstance(v, bytes) else v) for k, v in f.items()} for f in steps]})
+    return out
+
+def _unhex_step(f):
+    return {k: (bytes.fromhex(v) if k == "payload" else v) for k, v in f.items()}
+
+def ch11_repack_lines(ctx, cls="Chapter11"):
+    L = []
+    for c in ch11_repack_cases(ctx, cls):
+        ops = []
+        for f in c["steps"]:
+            ops += _sets(_unhex_step(f)) + ["pack", "obs"]
+        L.append(gen.H(cls, ops))
+        # the same after decoding something first (filler / payload / ptptime left by unpack)
+        L.append(gen.H(cls, ["unpack x25eb0100200000000500000005070084" + "00" * 8 + "0102030405060708090a0b0c" + "aabbccddee" + "ffffff"] + ops))
+    return L
+
+def check_ch11_repack(args):
+    """every pack() of a re-used object: length a multiple of four, packetlen = the real length, datalen = the
+    payload length, bytes = header ++ secondary header ++ payload ++ filler with the filler recomputed"""
+    cls = args.get("cls", "Chapter11")
+    import AcraNetwork.IRIG106.Chapter11 as ch11
+    o = ADAPTERS[cls].ctor()
+    cur = {"syncpattern": 0xEB25, "channelID": 0, "datatypeversion": o.datatypeversion, "sequence": 0, "packetflag": 0,
+           "datatype": 0, "relativetimecounter": 0, "ptptime": {"seconds": 0, "nanoseconds": 0}, "payload": b""}
+    for i, f in enumerate(args["steps"]):
+        f = _unhex_step(f)
+        for k, v in f.items():
+            if k == "ptptime":
+                o.ptptime = ch11.PTPTime(v["seconds"], v["nanoseconds"])
+            else:
+                setattr(o, k, v)
+            cur[k] = v
+        st = guarded(lambda: o.pack())
+        if st[0] != "ok":
+            return "%s.pack #%d of a re-used object raised (%s)" % (cls, i + 1, st[1])
+        b, p = st[1], cur["payload"]
+        sec = bool(cur["packetflag"] & 0x80)
+        exp = _spec([gen.F("spec.Ch11.encode", str(cur["syncpattern"]), str(cur["channelID"]), str(cur["datatypeversion"]),
+                           str(cur["sequence"]), str(cur["packetflag"]), str(cur["datatype"]), str(cur["relativetimecounter"]),
+                           "[%d;%d]" % (cur["ptptime"]["seconds"], cur["ptptime"]["nanoseconds"]) if sec else "None", hexb(p))])[0]
+        hl = 36 if sec else 24
+        k = len(b) - hl - len(p)
+        if len(b) % 4 or o.packetlen != len(b) or int.from_bytes(b[4:8], "little") != len(b) or o.datalen != len(p) \
+                or b[hl:hl + len(p)] != p or not (0 <= k < 4) or b[hl + len(p):] != b"\xff" * k or o.filler != b"\xff" * k \
+                or exp != "ok:" + hexb(b):
+            return ("%s.pack #%d of a re-used object (payload lengths so far %s) emits %s (packetlen=%d datalen=%d filler=%s); "
+                    "the Chapter 11 layout is %s" % (cls, i + 1, [len(_unhex_step(g).get("payload", b"")) for g in args["steps"][:i + 1]],
+                                                   hexb(b), o.packetlen, o.datalen, hexb(o.filler), exp))
+    return None
 
 def ch11_unpack_lines(ctx, packed, cls="Chapter11"):
     rng = ctx.rng
@@ -423,6 +511,7 @@ def corr_C03(ctx):
     for cls in ("Chapter11", "Chapter10"):
         A = ch11_lines(ctx, cls)
         L += A + ch11_unpack_lines(ctx, _packed_of(A), cls)
+        L += ch11_repack_lines(ctx, cls)
     return L
 
 def oracles_C03(ctx, hints):
@@ -439,6 +528,11 @@ def oracles_C03(ctx, hints):
             w = check_ch11_layout(args)
             if w:
                 _first(fails, Failure("ch11_layout", args, w[0], w[1]))
+        for args in ch11_repack_cases(ctx, cls):
+            n += 1
+            w = check_ch11_repack(args)
+            if w:
+                _first(fails, Failure("ch11_repack", args, w, {"class": cls, "check": "repack"}))
         for v in range(256):
             args = {"cls": cls, "flag": v}
             n += 1
@@ -454,7 +548,8 @@ def _w0(fn):
         return w[0] if w else None
     return g
 
-ORACLES = {"udp_layout": _w0(check_udp_layout), "ch11_layout": _w0(check_ch11_layout), "ch11_flags": check_ch11_flags}
+ORACLES = {"udp_layout": _w0(check_udp_layout), "ch11_layout": _w0(check_ch11_layout), "ch11_flags": check_ch11_flags,
+           "ch11_repack": check_ch11_repack}
 
 CLASSGEN = {
     "Chapter10UDP": ClassGen("Chapter10UDP", udp_valid, length_fields=[(5, 3, "big")], alt=udp_alt),
@@ -581,12 +676,15 @@ ORACLES["checksum_helpers"] = check_checksum_helpers
 # =================================================================================== C12 / C08: files
 SYNC = b"\x25\xeb"
 
+JUNK_LENGTHS = [0, 1, 2, 3, 4, 5, 6, 7, 8, 9, 10, 15, 16, 17, 23, 24, 25, 31, 32, 33, 40] + list(range(0, 41))
+
 def junk(rng, n, tail25=False):
-    """n bytes that do not contain the sync pattern 25 EB (optionally ending in 0x25)"""
+    """n bytes that do not contain the sync pattern 25 EB (optionally ending in 0x25); 0x25 not followed
+    by EB, EB not preceded by 25 and zero bytes are frequent"""
     b = bytearray(rng.bytes_(n))
     for i in range(len(b)):
-        if rng.random() < 0.15:
-            b[i] = rng.choice([0x25, 0xEB, 0x00])
+        if rng.random() < 0.25:
+            b[i] = rng.choice([0x25, 0xEB, 0xEB, 0x00])
     for i in range(len(b) - 1):
         if b[i] == 0x25 and b[i + 1] == 0xEB:
             b[i + 1] = 0xEC
@@ -601,13 +699,21 @@ def file_items(rng, n_pkts=None, with_junk=True):
     items = []
     def j():
         if with_junk and rng.random() < 0.6:
-            items.append(("junk", junk(rng, rng.choice([1, 2, 3, 7, 8, 9, 23]), tail25=rng.random() < 0.4)))
+            b = junk(rng, rng.choice(JUNK_LENGTHS), tail25=rng.random() < 0.4)
+            if b:
+                items.append(("junk", b))
     j()
     for i in range(n_pkts):
         f = ch11_fields(rng, n=rng.randrange(0, 10))
         f.pop("syncpattern", None)
         p = f.pop("payload")
-        if rng.random() < 0.5:
+        c = rng.random()
+        if c < 0.2:
+            # an object that was used before: pack() left filler / packetlen / datalen behind
+            f.update({"filler": rng.choice([b"", b"\xff", b"\xff\xff\xff"]), "packetlen": rng.choice([0, 24, 28, 1000]),
+                      "datalen": rng.randrange(0, 50)})
+            items.append(("obj", f, p))
+        elif c < 0.5:
             items.append(("obj", f, p))
         else:
             b = _ch11_obj("Chapter11", f, p).pack()
@@ -646,6 +752,13 @@ def file_lines(ctx):
         ops = ["call write qwb " + item_texts(items, cls), "pack", "call iter", "call offset", "call next", "call offset",
                "call reopen"] + ["call next", "call offset"] * (n + 2)
         L.append(gen.H("Ch10File", ops))
+    # junk of every length 0..40 before, between and after two packets
+    for n in range(0, 41):
+        a = file_items(rng, n_pkts=2, with_junk=False)
+        items = [("junk", junk(rng, n, tail25=(n % 3 == 1)))] if n else []
+        items += [a[0]] + ([("junk", junk(rng, n, tail25=(n % 3 == 2)))] if n else []) + [a[1]]
+        items += [("junk", junk(rng, (n * 7) % 41))] if (n * 7) % 41 else []
+        L.append(gen.H("Ch10File", ["call write qwb " + item_texts(items), "pack", "call iter", "call offset"]))
     # every truncation offset of small files (a crash leaves a prefix)
     for i in range(ctx.scale(8, 120)):
         items = file_items(rng, n_pkts=rng.randrange(1, 4))
@@ -676,7 +789,7 @@ def raw_file(rng, n):
         if n < 8:
             break
         i = rng.randrange(0, n - 7)
-        ln = rng.choice([0, 0, 1, 2, 7, 8, 9, 24, n - i, n - i + 1, n, 0xFFFFFFFF, rng.getrandbits(8), rng.getrandbits(32)])
+        ln = rng.choice([0, 0, 1, 1, 2, 2, 3, 3, 4, 5, 7, 8, 9, 24, n - i, n - i + 1, n - i - 1, n, 0xFFFFFFFF, rng.getrandbits(8), rng.getrandbits(32)])
         b[i:i + 8] = SYNC + rng.bytes_(2) + (ln & 0xFFFFFFFF).to_bytes(4, "little")
     return bytes(b)
 
@@ -685,6 +798,10 @@ def file_malformed_lines(ctx):
     L = []
     L.append(gen.H("Ch10File", ["unpack x25eb000000000000", "call iter", "call offset"]))       # D11 regression
     L.append(gen.H("Ch10File", ["unpack x25eb00000000000025eb000008000000", "call iter", "call offset"]))
+    for ln in (1, 2, 3, 4, 7, 8, 9):                              # tiny length fields after a sync word
+        for tail in (b"", b"\x25\xeb", b"\x25\xeb\x00\x00" + bytes([ln, 0, 0, 0]) + b"\x00" * 9):
+            d = b"\x25\xeb\x01\x00" + bytes([ln, 0, 0, 0]) + tail
+            L.append(gen.H("Ch10File", ["unpack " + hexb(d), "call iter", "call offset", "call next"]))
     for n in list(range(0, 20)) + [rng.randrange(20, 300) for _ in range(ctx.scale(60, 3000))]:
         L.append(gen.H("Ch10File", ["unpack " + hexb(raw_file(rng, n)), "call iter", "call offset", "call next", "call offset"]))
     for _ in range(ctx.scale(20, 400)):                          # step by step with `next`
@@ -698,11 +815,26 @@ def corr_C12(ctx):
 def corr_C08(ctx):
     return file_malformed_lines(ctx)
 
-def _write_file(path, items):
+def _write_file(path, items, reuse=False):
+    """write the items through FileParser; with `reuse` ONE Chapter11 object is re-assigned and written
+    for every object item (so each write sees what the previous pack left behind)"""
     import AcraNetwork.IRIG106.Chapter10.FileParser as fileparser
+    import AcraNetwork.IRIG106.Chapter11 as ch11
+    shared = ch11.Chapter11()
     with fileparser.FileParser(path, mode="wb") as f:
         for it in items:
-            f.write(_ch11_obj("Chapter11", it[1], it[2]) if it[0] == "obj" else it[1])
+            if it[0] != "obj":
+                f.write(it[1])
+            elif not reuse:
+                f.write(_ch11_obj("Chapter11", it[1], it[2]))
+            else:
+                for k, v in it[1].items():
+                    if k == "ptptime":
+                        shared.ptptime = ch11.PTPTime(v["seconds"], v["nanoseconds"])
+                    else:
+                        setattr(shared, k, v)
+                shared.payload = it[2]
+                f.write(shared)
 
 def _iterate(path):
     import AcraNetwork.IRIG106.Chapter10.FileParser as fileparser
@@ -726,7 +858,7 @@ def check_file_roundtrip(args):
     fd, path = tempfile.mkstemp(prefix="acra_c12_", suffix=".ch10")
     os.close(fd)
     try:
-        _write_file(path, items)
+        _write_file(path, items, reuse=args.get("reuse", False))
         with open(path, "rb") as f:
             on_disk = f.read()
         if on_disk != data:
@@ -778,7 +910,7 @@ def oracles_C12(ctx, hints):
         data, _ = item_bytes(items)
         cuts = list(range(len(data) + 1)) if len(data) <= ctx.scale(200, 600) and i % 3 == 0 else \
             sorted(set([len(data)] + [rng.randrange(0, len(data) + 1) for _ in range(6)]))
-        args = {"items": _items_json(items), "cuts": cuts}
+        args = {"items": _items_json(items), "cuts": cuts, "reuse": i % 4 == 1}
         n += len(cuts)
         w = check_file_roundtrip(args)
         if w:
@@ -912,7 +1044,8 @@ def corr_C14(ctx):
 # =================================================================================== C15: PTP / RTC
 def ptp_pairs(ctx):
     rng = ctx.rng
-    secs = [0, 1, 2 ** 31 - 1, 2 ** 31, 2 ** 32 - 2, 2 ** 32 - 1, 1700000000, 1700000001]
+    secs = [0, 1, 2 ** 31 - 1, 2 ** 31, 2 ** 32 - 2, 2 ** 32 - 1, 1700000000, 1700000001, 1759104000, 1800000000,
+            4102444799, 4294967295]
     nss = [0, 1, 2, 499999999, 500000000, 999999998, 999999999]
     out = []
     for s in secs:
@@ -921,6 +1054,12 @@ def ptp_pairs(ctx):
             out.append(((s, n), (s, (n + 1) % 10 ** 9)))
             out.append(((s, n), (s + 1, 0)))
             out.append(((s, n), (max(0, s - 1), 999999999)))
+    for _ in range(ctx.scale(100, 5000)):                  # 1 ns apart at present-day and late epochs, both orders
+        s0 = rng.choice([rng.randrange(1700000000, 1900000000), 2 ** 32 - 1, rng.randrange(2 ** 31, 2 ** 32)])
+        n0 = rng.choice([0, 1, 999999998, rng.randrange(0, 10 ** 9 - 1)])
+        out.append(((s0, n0), (s0, n0 + 1)))
+        out.append(((s0, n0 + 1), (s0, n0)))
+        out.append(((s0, n0), (s0, n0)))
     for _ in range(ctx.scale(300, 20000)):
         a = (rng.choice(secs + [rng.getrandbits(32)]), rng.choice(nss + [rng.randrange(0, 10 ** 9)]))
         c = rng.random()
@@ -1174,7 +1313,10 @@ def _c13_cases(ctx):
     return out
 
 def corr_C13(ctx):
-    return [gen.H(cls, ops + [final, "obs", "pack", "obs", "pack", "obs"]) for cls, ops, final in _c13_cases(ctx)]
+    L = [gen.H(cls, ops + [final, "obs", "pack", "obs", "pack", "obs"]) for cls, ops, final in _c13_cases(ctx)]
+    for cls in ("Chapter11", "Chapter10"):
+        L += ch11_repack_lines(ctx, cls)
+    return L
 
 def oracles_C13(ctx, hints):
     from .. import generic
@@ -1185,5 +1327,11 @@ def oracles_C13(ctx, hints):
         w = generic.check_history_independence(args)
         if w:
             _first(fails, Failure("history_independence", args, w, {"class": cls, "check": "history"}))
+    for cls in ("Chapter11", "Chapter10"):
+        for args in ch11_repack_cases(ctx, cls):
+            n += 1
+            w = check_ch11_repack(args)
+            if w:
+                _first(fails, Failure("ch11_repack", args, w, {"class": cls, "check": "repack"}))
     ctx.count("oracle_evaluations", n)
     return fails
